@@ -79,8 +79,10 @@ def classes_from_bit(bit):
 def needs(cls, bit, recursive, is_subclass):
     """Does a watch filtered on `cls` need the kernel bit?  (i) the bit can yield an event that is an instance of
     cls; (ii) if one half of a rename is needed so is the other (an unpaired half is reported as a delete or a
-    create the unfiltered stream does not contain); (iii) a recursive watch needs IN_CREATE / IN_MOVED_FROM /
-    IN_MOVED_TO for its own bookkeeping (following new and renamed directories); (iv) IN_DELETE_SELF always."""
+    create the unfiltered stream does not contain); (iii) a recursive watch needs IN_CREATE / IN_MOVED_TO for its own
+    bookkeeping (following directories that are created or arrive under a new name; since fix 26501cd a directory
+    arriving by IN_MOVED_TO without a known source is re-watched, so IN_MOVED_FROM is an optimisation, not a need);
+    (iv) IN_DELETE_SELF always."""
     def direct(b):
         return any(is_subclass(p, cls) for p in classes_from_bit(b))
     if bit == "IN_DELETE_SELF":
@@ -89,6 +91,6 @@ def needs(cls, bit, recursive, is_subclass):
         return True
     if bit in ("IN_MOVED_FROM", "IN_MOVED_TO") and (direct("IN_MOVED_FROM") or direct("IN_MOVED_TO")):
         return True
-    if recursive and bit in ("IN_CREATE", "IN_MOVED_FROM", "IN_MOVED_TO"):
+    if recursive and bit in ("IN_CREATE", "IN_MOVED_TO"):
         return True
     return False
